@@ -2,15 +2,19 @@
 # usage: harness/seedmatrix.sh <out.tsv> <VERIF_SEED> [<VERIF_SEED> ...]
 # every seeded change of /verif/seeded/sNN_Cxx is applied to a scratch worktree of /repo's HEAD and the quick check of ITS
 # property is run once per given VERIF_SEED (VERIF_REPO points at the worktree; /repo itself is not touched).
+# SHARD=i NSHARDS=n in the environment: only every n-th seeded change (for parallel runs).
 # One line per (seeded change, seed): id, property, seed, outcome (failing-input | no-failing-input-found | MISSED | n/a).
 OUT="$1"; shift
 SEEDS="$@"
-WT=/tmp/seedmatrix_wt
+SHARD=${SHARD:-0}; NSHARDS=${NSHARDS:-1}
+WT=/tmp/seedmatrix_wt_$SHARD
 git -C /repo worktree remove --force $WT 2>/dev/null
 git -C /repo worktree add -q --detach $WT HEAD || exit 2
 cd /verif || exit 2
 : > "$OUT"
+I=0
 for D in seeded/s[0-9][0-9]_C[0-9][0-9]; do
+  I=$((I+1)); [ $((I % NSHARDS)) -eq $SHARD ] || continue
   SID=$(basename $D); P=${SID#*_}
   git -C $WT checkout -q -- . 
   if ! git -C $WT apply --check $PWD/$D/patch.diff 2>/dev/null; then
